@@ -85,3 +85,41 @@ Example C17_example_rejected :
   is_ok (validate_header field_table required_fields (fun s => s) ex_ok ex_ok ex_ok ex_ok Fail Fail 2
            (ex_hs ++ [(bs "WARC-Filename", bs "x"); (bs "Content-Length", bs "-1")]%string) []) = false.
 Proof. vm_compute. reflexivity. Qed.
+
+(** "... and the record is still returned", for the parser as a whole (Proofs/WarnReturnsProofs.v):
+    with the spec policy at warn (the unknown-type policy not at fail) the parser withholds a record
+    only when the version line or the header section cannot be read - end of input, read error, or
+    a syntax error that the syntax policy rejects.  Whenever they can be read, a record comes back,
+    whatever header validation, block parsing, length and digest verification or the end-of-record
+    marker find (their complaints are findings, or an error attached to the returned record). *)
+Require Import Model.Stream Model.HeaderParse Model.Digest Model.Record Proofs.WarnReturnsProofs.
+Theorem C17_parser_under_warn_still_returns_the_record :
+  forall uni_lower uni_upper time_ok ip_ok uri_ok wid_ok mime_dec H b32 b64 http_req_ok http_resp_ok o s fnd,
+    o_spec o = Warn -> o_unknown o <> Fail ->
+    header_readable field_table uni_lower mime_dec o s ->
+    is_rec (parse_record field_table required_fields uni_lower uni_upper time_ok ip_ok uri_ok wid_ok mime_dec H b32 b64
+                         http_req_ok http_resp_ok o s fnd).
+Proof.
+  intros ul uu tk ik uk wk md H b32 b64 hq hr o s fnd.
+  exact (warn_returns_a_record field_table required_fields ul uu tk ik uk wk md H b32 b64 hq hr gen_table_ok o s fnd).
+Qed.
+Print Assumptions C17_parser_under_warn_still_returns_the_record.
+
+(** non-vacuity: a record whose header strict rejects (mandatory fields missing, a negative
+    Content-Length): readable, withheld under strict, returned with findings under warn *)
+Definition exw_stream : stream :=
+  mkst (bs "WARC/1.1" ++ [13;10] ++ bs "WARC-Type: response" ++ [13;10] ++ bs "Content-Length: -1" ++ [13;10;13;10])%list TEOF.
+Definition exw_opts (p : policy) := mkopts Warn p Warn Warn false false false false false false false false (bs "sha1") Base16.
+Definition exw_parse (p : policy) :=
+  parse_record field_table required_fields (fun s => s) (fun s => s) ex_ok ex_ok ex_ok ex_ok (fun _ => None) (fun _ _ => []) (fun _ => None) (fun _ => None)
+               ex_ok ex_ok (exw_opts p) exw_stream [].
+Example C17_warn_parser_example :
+  header_readable field_table (fun s => s) (fun _ => None) (exw_opts Warn) exw_stream /\
+  match exw_parse Fail with UNone _ _ => True | URec _ _ _ _ => False end /\
+  match exw_parse Warn with URec r _ f _ => r_type r = 2 /\ f <> [] | UNone _ _ => False end.
+Proof.
+  split.
+  - unfold header_readable. do 4 eexists. exists [], []. split; [vm_compute; reflexivity|].
+    split; [left; vm_compute; reflexivity|vm_compute; reflexivity].
+  - split; vm_compute; [exact I|split; [reflexivity|discriminate]].
+Qed.
